@@ -35,6 +35,38 @@ pub const F_HELPER: usize = 7;
 /// parameter there, so the two forms that embed the expected text are left out)
 pub const CYCLE_FORMS: [usize; 7] = [0, 1, 2, 3, 4, 6, 7];
 
+/// how the one context read of a program is written; every form evaluates to
+/// CV when the context is { cv: CV, cs: "ab" }
+pub const ACCESS: [&str; 10] = [
+    "plain",          // cv
+    "int_method",     // cv.to_string()
+    "str_method",     // cs.to_uppercase()
+    "str_method_arg", // cs.contains("a")
+    "fstring_plain",  // f"{cv}"
+    "fstring_method", // f"{cs.to_uppercase()}"
+    "call_arg",       // echo_i32(cv)
+    "operand",        // (2 * cv - cv)
+    "paren_receiver", // (cs).to_uppercase()
+    "method_arg",     // "cab".contains(cs)
+];
+
+pub fn access_expr(a: usize) -> String {
+    let sel = |cond: &str| format!("(if {cond} {{ {CV} }} else {{ {POISON} }})");
+    match a {
+        0 => "cv".into(),
+        1 => sel(&format!("cv.to_string() == \"{CV}\"")),
+        2 => sel("cs.to_uppercase() == \"AB\""),
+        3 => sel("cs.contains(\"a\")"),
+        4 => sel(&format!("f\"{{cv}}\" == \"{CV}\"")),
+        5 => sel("f\"{cs.to_uppercase()}\" == \"AB\""),
+        6 => "echo_i32(cv)".into(),
+        7 => "(2 * cv - cv)".into(),
+        8 => sel("(cs).to_uppercase() == \"AB\""),
+        9 => sel("\"cab\".contains(cs)"),
+        _ => unreachable!(),
+    }
+}
+
 #[derive(Clone, Copy, PartialEq, Eq, Debug)]
 pub enum Family {
     /// acyclic graph, must compile
@@ -69,6 +101,8 @@ pub struct Case {
     pub back: Option<(usize, usize)>,
     /// (x, k): node x reads `cv` through k functions (family Ctx)
     pub ctx: Option<(usize, usize)>,
+    /// index into ACCESS: how the context read is written (family Ctx)
+    pub access: usize,
 }
 
 #[derive(Clone, Debug, PartialEq)]
@@ -287,16 +321,17 @@ impl Case {
             }
             if let Some((x, k)) = self.ctx {
                 if x == i {
+                    let read = access_expr(self.access);
                     match k {
-                        0 => terms.push("cv".into()),
+                        0 => terms.push(read),
                         1 => {
                             terms.push("q1()".into());
-                            extra[mi].push("fn q1() -> i32 { cv }".into());
+                            extra[mi].push(format!("fn q1() -> i32 {{ {read} }}"));
                         }
                         _ => {
                             terms.push("q1()".into());
                             extra[mi].push("fn q1() -> i32 { q2() }".into());
-                            extra[mi].push("fn q2() -> i32 { cv }".into());
+                            extra[mi].push(format!("fn q2() -> i32 {{ {read} }}"));
                         }
                     }
                 }
@@ -424,6 +459,7 @@ pub fn self_test(max_n: usize) -> Result<(), String> {
         form: F_BARE,
         back: None,
         ctx: None,
+        access: 0,
     };
     if c.val(0, 0) != 1 + 10 + 100 + 2000 || c.const_deps(0) != vec![3] || c.expect() != Expect::Accept {
         return Err("model self-test (diamond) failed".into());
